@@ -1,2 +1,79 @@
 def register(fixed, known):
-    pass
+    DP, EP, PP2 = "lisp_parsers.domain_parser", "lisp_parsers.effects_parser", "lisp_parsers.preconditions_parser"
+    # ---- repaired after the first batch
+    fixed("C01", "C01.leftover", DP, "DomainParser.parse_constants", "trailing-group:same_type_constants", "954aa46",
+          "constants listed after the last '- type' group were dropped", "fixes/demos.py F11")
+    fixed("C05", "C05.leftover", "lisp_parsers.problem_parser", "ProblemParser.parse_objects", "trailing-group:same_type_objects", "954aa46",
+          "objects listed after the last '- type' group were dropped", "fixes/demos.py F11")
+    fixed("C01", "C01.headstrip", DP, "DomainParser.parse_preconditions", "head-stripped:preconditions_ast", "ee266cf",
+          "a single-condition / top-level-not precondition body lost its head: (p ?x) -> true, (not (p ?x)) -> (p ?x)", "fixes/demos.py F14")
+    fixed("C01", "C01.nodrop", PP2, "PreconditionsParser.parse", "drop:precondition_node", "8cff7c9",
+          "an unknown precondition node (imply, exists, ...) was logged and dropped together with every later sibling", "fixes/demos.py F15")
+    fixed("C01", "C01.nodrop", EP, "EffectsParser.parse", "drop:effect_node", "8cff7c9",
+          "an unknown effect node (scale-up, nested and, ...) was skipped silently", "fixes/demos.py F15")
+    fixed("C01", "C01.arity", "models.numerical_expression", "construct_expression_tree", "arity:expression_ast[2]", "f3f424a",
+          "n-ary arithmetic (+ a b c) silently lost c", "fixes/demos.py F17")
+    for cls, mod in (("Predicate", "models.pddl_predicate"), ("PDDLFunction", "models.pddl_function"), ("Action", "models.pddl_action")):
+        fixed("C18", "C18.simul", mod, f"{cls}.change_signature", "inplace-rename:self.signature", "1b25a12",
+              "sequential pop/insert renaming lost parameters for overlapping maps such as a swap", "fixes/demos.py F10")
+    fixed("C11", "C11.pipeline", "lisp_parsers.pddl_tokenizer", "PDDLTokenizer.__init__", "deletes-separator:'\\t'", "e72f96a",
+          "string mode deleted tabs and merged the neighbouring tokens", "fixes/demos.py F7")
+    fixed("C19", "C19.regex", "exporters.ff_output_parser", "PLAN_COMPONENT_REGEX", "group-matches-newline", "527a4b7",
+          "\\s inside the step capture group swallowed a following log line into the last step", "fixes/demos.py F20")
+    for k in ("objects-unknown", "objects-known"):
+        fixed("C10", "C10.siblings", "lisp_parsers.trajectory_parser", "TrajectoryParser.parse_grounded_numeric_fluent", f"sibling-obligation:repeats:{k}", "575ebff",
+              "the trajectory reader had no repeated-argument bookkeeping: (= (dist c0 c0) 1) came back as (dist c0)", "fixes/demos.py F13")
+    fixed("C13", "C13.round", "models.numeric_symbolic_operations", "extract_atom", "truncation-under-round-guard", "9c46f5c",
+          "int(x) under a round(x, d).is_integer() guard truncated 2.99999 to 2", "fixes/demos.py F19")
+
+    # ---- recorded, not repaired
+    kf1 = ("SignatureType = Dict[str, PDDLType] keys argument lists by name: inherent to the public data model; a repair changes the type of "
+           "Predicate.signature / PDDLFunction.signature for every user of the library")
+    known("C01", "C01.dupkeys", "lisp_parsers.parsing_utils", "parse_untyped_predicate", "dict-key:untyped_predicate",
+          "(r ?x ?x) is stored as the unary (r ?x)", kf1, "fixes/demos.py K1")
+    known("C01", "C01.dupkeys", "models.numerical_expression", "construct_expression_tree", "dict-key:expression_ast",
+          "(dist ?a ?a) inside a numeric expression is stored as (dist ?a)", kf1, "fixes/demos.py K1")
+    for prop, rule in (("C05", "C05.dupkeys"), ("C09", "C09.dupkeys")):
+        known(prop, rule, "lisp_parsers.problem_parser", "ProblemParser.parse_grounded_numeric_fluent", "dict-key-position:grounded_numeric_fluent",
+              "(= (f a b a) v) keeps the multiplicity but not the positions of a repeated argument: written back as (f a a b)", kf1, "fixes/demos.py K1b")
+    known("C10", "C10.dupkeys", "lisp_parsers.trajectory_parser", "TrajectoryParser.parse_grounded_numeric_fluent", "dict-key-position:grounded_numeric_fluent",
+          "same as the problem parser (after the fix that added the bookkeeping)", kf1, "fixes/demos.py K1b")
+    known("C20", "C20.dupkeys", "models.grounding_utils", "_iterate_calc_tree_and_ground", "dict-key-store:grounded_signature",
+          "a call with a repeated object grounds (dist ?a ?b) to (dist c0)", kf1, "fixes/demos.py K1")
+    kf2 = ("repairing it means rewriting the condition evaluator (attach nested / universal conditions, operator identities, arm order, nested "
+           "quantifier grounding) -- one coherent rewrite of ~100 lines, not a small patch")
+    GP = "models.grounded_precondition"
+    for prop, rule in (("C02", "C02.translate"), ("C20", "C20.translate")):
+        known(prop, rule, GP, "GroundedPrecondition._ground", "arm:Precondition",
+              "a nested and/or condition is grounded and then dropped: (and (or (p ?x) (q ?x))) is applicable with both false", kf2, "fixes/demos.py K2")
+        known(prop, rule, GP, "GroundedPrecondition._ground", "arm:UniversalPrecondition",
+              "a forall precondition is never attached to the grounded precondition: it is ignored", kf2, "fixes/demos.py K2")
+        known(prop, rule, GP, "GroundedPrecondition._ground_universal_condition", "arm:else:Precondition",
+              "nested conditions inside a forall body are skipped (latent: unreachable while the forall itself is ignored)", kf2)
+        known(prop, rule, GP, "GroundedPrecondition._ground_universal_condition", "arm:else:UniversalPrecondition",
+              "nested quantifiers inside a forall body are skipped (latent)", kf2)
+    known("C02", "C02.foldid", GP, "GroundedPrecondition._is_condition_applicable", "fold-init:or",
+          "the and/or fold starts from True for both operators: an `or` node is true whatever its disjuncts are", kf2, "fixes/demos.py K2")
+    known("C02", "C02.foldid", GP, "GroundedPrecondition._validate_universal_precondition", "fold-init:or", "same fold in the quantifier evaluator (latent)", kf2)
+    known("C02", "C02.foldarms", GP, "GroundedPrecondition._is_condition_applicable", "arm-overwrites:UniversalPrecondition",
+          "the arm for quantified conditions overwrites the accumulator and is shadowed by the Precondition arm (latent: dead code)", kf2)
+    known("C11", "C11.eof", "lisp_parsers.pddl_tokenizer", "PDDLTokenizer.parse", "missing:end-of-input-check",
+          "'(a b))' and '(a b) (c d)' are accepted and the tail is ignored",
+          "three tests of the repository's wider suite (domain_parser_test x2, numerical_expression_test x1) feed text with surplus closing "
+          "parentheses; adding the check fails them, and the tests may not be edited", "fixes/demos.py K5")
+    kf7 = "the repairs change the canonical output strings that the 16 pinned simplifier tests pin down, and need a redesign of the symbol naming / power printing"
+    NS = "models.numeric_symbolic_operations"
+    known("C13", "C13.vocab", NS, "SYMPY_OP_TO_PDDL_OP", "table-value:Pow", "powers other than -1 and >1 are printed with '^': 1/(x*x) -> (^ (fuel ?x) -2)", kf7, "fixes/demos.py K7")
+    known("C13", "C13.mangle", NS, "transform_expression", "symbol-name:deletes-separators",
+          "(dist a bc) and (dist ab c) become one sympy symbol: their difference simplifies to 0", kf7, "fixes/demos.py K7")
+    known("C13", "C13.atoms", NS, "extract_atom", "atom-class:Rational", "x/3 raises KeyError (Rational is not handled)", kf7, "fixes/demos.py K7")
+    known("C13", "C13.atoms", NS, "extract_atom", "atom-class:Half", "x/2 raises KeyError (Half is not handled)", kf7, "fixes/demos.py K7")
+    kf8 = "needs new change_signature methods on ConditionalEffect, UniversalEffect and a recursion through nested conditions (the source carries a TODO for it)"
+    known("C18", "C18.fields", "models.pddl_action", "Action.change_signature", "field:conditional_effects", "conditional effects keep the old parameter names", kf8, "fixes/demos.py K8")
+    known("C18", "C18.fields", "models.pddl_action", "Action.change_signature", "field:universal_effects", "universal effects keep the old parameter names", kf8, "fixes/demos.py K8")
+    known("C18", "C18.pairs", "models.pddl_precondition", "Precondition.change_signature", "nested-pairs", "(in)equality pairs of nested conditions keep the old names", kf8)
+    kf9 = "needs print-option parameters on ConditionalEffect / UniversalEffect / UniversalPrecondition printers and on Action.effects_to_pddl"
+    known("C08", "C08.options", "models.pddl_precondition", "Precondition._print_self", "call:str(operand)",
+          "a nested condition is printed simplified at 2 digits although the exporter asked for unsimplified text", kf9, "fixes/demos.py K9")
+    known("C08", "C08.options", "models.conditional_effect", "ConditionalEffect.__str__", "call:str(self.antecedents)", "antecedents of a when-effect are printed simplified at 2 digits", kf9, "fixes/demos.py K9")
+    known("C08", "C08.options", "models.pddl_precondition", "UniversalPrecondition.__str__", "call:super()._print_self()", "the body of a forall precondition is printed simplified at 2 digits", kf9)
